@@ -36,6 +36,9 @@ CHECKS = {
  "C14": ("bounded symbolic execution of JSONPointer parse/print/from_parts/join/parent/is_relative_to/eq/hash vs the RFC 6901 token model",
          "Parse-print identity and equality-iff-token-sequences-equal on symbolic RFC 6901 text (decoding off) and on token lists over Sigma through from_parts, printing and re-parsing (decoding on and off); join and / with escaped tokens: spelling, parent, is_relative_to and resolve-then-step; join/parent chains; leading-slash replacement.",
          "Sigma / piece pools where the unicode-escape codec (always on in / and join) is a C boundary"),
+ "C16": ("z3 regular-language inclusion of the draft's relative-pointer prefix grammar in the live RE_RELATIVE_POINTER groups; bounded execution of parse/print/to() vs the draft's definition over rendered pointers",
+         "Lane R decides for offsets of any number of digits that the draft's prefix is inside the live pattern. Parse-print identity, to() equal to the draft's definition and the three forbidden applications are decided over 7 base shapes x final indices x steps x offsets (incl. multi-digit) x suffixes ('#', escaped, non-ASCII), through RelativeJSONPointer.to and JSONPointer.to.",
+         "relative pointer text is rendered from integers and passes through a C regex: solver-driven enumeration over pools"),
 }
 NA = {
  "C18": "process-level I/O (argparse FileType, stdin/stdout, exit status, stderr text): CrossHair's audit wall blocks file access, file contents pass through C json, and what remains is a finite option table whose exploration would be enumeration of concrete runs - no role for a solver",
